@@ -385,9 +385,18 @@ def r2_append_ranges(ctx, rid):
     # (3) the key names the variable whose extents are recorded
     key = _inline(ctx, f, rec.targets[0].slice)
     vdefs = [s for s in cfg.stmts() if isinstance(s, ast.Assign) and any(isinstance(t, ast.Name) and t.id == varname for t in s.targets)]
-    if len(vdefs) != 1:
+    vdef = vdefs[0] if len(vdefs) == 1 else None
+    loop_sel = None
+    if not vdefs:
+        # the variable dict is the value a loop over `<variables>.items()` binds: for var_key, var in variables.items()
+        for lp in loops:
+            if isinstance(lp.target, ast.Tuple) and len(lp.target.elts) == 2 and isinstance(lp.target.elts[1], ast.Name) and lp.target.elts[1].id == varname \
+                    and isinstance(lp.target.elts[0], ast.Name) and isinstance(lp.iter, ast.Call) and call_name(lp.iter) == "items" \
+                    and isinstance(lp.iter.func, ast.Attribute):
+                loop_sel = ast.Subscript(value=lp.iter.func.value, slice=lp.target.elts[0], ctx=ast.Load())
+                vdef = lp
+    if vdef is None:
         raise AnalysisError(f"{rid}: expected one definition of `{varname}` in append_values, found {len(vdefs)}")
-    vdef = vdefs[0]
 
     def loop_key(loop):
         """the name a loop binds to the dictionary key it iterates: `for k, v in d.items()`, `for k in d`, `for k in d.keys()`"""
@@ -398,7 +407,7 @@ def r2_append_ranges(ctx, rid):
             return tg.id
         return None
     op_loop_var, var_loop_var = loop_key(outer), loop_key(inner)
-    sel = _inline(ctx, f, vdef.value)                    # <container>[var]  with  <container> = ...[op][...]
+    sel = loop_sel if loop_sel is not None else _inline(ctx, f, vdef.value)      # <container>[var]  with  <container> = ...[op][...]
     if not (isinstance(sel, ast.Subscript) and isinstance(key, ast.Tuple) and len(key.elts) == 2 and all(isinstance(k, ast.Name) for k in key.elts)
             and op_loop_var and var_loop_var):
         raise AnalysisError(f"{rid}: cannot relate the key `{norm(key)}` to the selection `{norm(vdef)}` of the extended variable (unrecognised form)")
